@@ -16,3 +16,15 @@ func init() {
 			"\tif conds := tx.Statement.BuildCondition(query, args...); len(conds) > 0 {\n\t\ttx.Statement.AddClause(clause.Where{Exprs: []clause.Expression{clause.Not(conds...)}})\n\t}", "\tconds := tx.Statement.BuildCondition(query, args...)\n\ttx.Statement.AddClause(clause.Where{Exprs: []clause.Expression{clause.Not(conds...)}})"}}},
 	)
 }
+
+func init() {
+	addMutants(
+		Mutant{Name: "c02-or-arm-ignores-namedexpr-again", Property: "C02", Rule: "C02.siblings", Edits: []Edit{{"clause/where.go",
+			"\t\t\tcase OrConditions:\n\t\t\t\tif len(v.Exprs) == 1 {\n\t\t\t\t\tif rawSQL, ok := rawExprSQL(v.Exprs[0]); ok {\n\t\t\t\t\t\tsql := strings.ToUpper(rawSQL)",
+			"\t\t\tcase OrConditions:\n\t\t\t\tif len(v.Exprs) == 1 {\n\t\t\t\t\tif e, ok := v.Exprs[0].(Expr); ok {\n\t\t\t\t\t\tsql := strings.ToUpper(e.SQL)"}}, Note: "reverts fix 618e290"},
+		Mutant{Name: "c02-or-arm-looks-for-and-only", Property: "C02", Rule: "C02.siblings", Edits: []Edit{{"clause/where.go",
+			"\t\t\tcase OrConditions:\n\t\t\t\tif len(v.Exprs) == 1 {\n\t\t\t\t\tif rawSQL, ok := rawExprSQL(v.Exprs[0]); ok {\n\t\t\t\t\t\tsql := strings.ToUpper(rawSQL)\n\t\t\t\t\t\twrapInParentheses = strings.Contains(sql, AndWithSpace) || strings.Contains(sql, OrWithSpace)",
+			"\t\t\tcase OrConditions:\n\t\t\t\tif len(v.Exprs) == 1 {\n\t\t\t\t\tif rawSQL, ok := rawExprSQL(v.Exprs[0]); ok {\n\t\t\t\t\t\twrapInParentheses = strings.Contains(strings.ToUpper(rawSQL), AndWithSpace)"}},
+			Note: "seed S19 (C02r2) rebased onto the fixed tree"},
+	)
+}
